@@ -135,6 +135,65 @@ def gen_program(rng, op, min_tasks=1, max_tasks=6, p_exn=0.0, p_err=0.12, p_lv=0
     raise RuntimeError("generator could not meet the task bounds")
 
 
+def _plan(rng, keys, prefix):
+    """a selection plan over `keys` (in this order of first occurrence) in which some earlier key
+    is selected again inside a later inline fragment / fragment spread"""
+    occ = list(keys)
+    n_again = rng.choice([1, 1, 2]) if len(keys) > 1 else 1
+    again = []
+    for _ in range(n_again):
+        i = rng.randrange(max(1, len(keys) - 1)) if len(keys) > 1 else 0
+        again.append(keys[i])
+    # cut the first occurrences into chunks; re-selections go to the end of a later chunk
+    cuts = sorted(set(rng.sample(range(1, len(occ)), min(len(occ) - 1, rng.randint(1, 2))))) if len(occ) > 1 else []
+    chunks, last = [], 0
+    for c in cuts + [len(occ)]:
+        chunks.append([["f", k] for k in occ[last:c]])
+        last = c
+    for k in again:
+        first_chunk = next(i for i, ch in enumerate(chunks) if ["f", k] in ch)
+        later = [i for i in range(len(chunks)) if i > first_chunk] or [len(chunks)]
+        tgt = rng.choice(later)
+        if tgt == len(chunks):
+            chunks.append([])
+        pos = rng.randint(0, len(chunks[tgt]))
+        chunks[tgt].insert(pos, ["f", k]) if rng.random() < 0.5 else chunks[tgt].append(["f", k])
+    plan = []
+    for i, ch in enumerate(chunks):
+        has_again = any(it[1] in again and any(["f", it[1]] in c for c in chunks[:i]) for it in ch)
+        kind = rng.choice(["inline", "inlineT", "spread"]) if has_again else rng.choice(["plain", "plain", "inline", "spread"])
+        if kind == "plain":
+            plan.extend(ch)
+        elif kind == "spread":
+            plan.append(["spread", "%s%d" % (prefix, i), ch])
+        else:
+            plan.append(["inline", kind == "inlineT", ch])
+    return plan
+
+
+def add_render(rng, program, p_nested=0.3):
+    """root selection (and some object sub-selections) written with inline fragments / named
+    fragment spreads that select earlier response keys again"""
+    program = dict(program)
+    program["render"] = _plan(rng, [f["k"] for f in program["fields"]], "R")
+    n = [0]
+
+    def nested(fields):
+        out = []
+        for f in fields:
+            b = f["b"]
+            if b[0] == "obj":
+                f = dict(f, b=["obj", nested(b[1])])
+                if rng.random() < p_nested:
+                    n[0] += 1
+                    f["render"] = _plan(rng, [g["k"] for g in b[1]], "N%d_" % n[0])
+            out.append(f)
+        return out
+
+    program["fields"] = nested(program["fields"])
+    return program
+
+
 def sub_programs(program):
     """structural shrink candidates: drop one field / one item / flatten"""
     def drop_in(fields):
@@ -154,5 +213,7 @@ def sub_programs(program):
             if f["m"] != "S":
                 yield fields[:i] + [dict(f, m="S")] + fields[i + 1:]
 
+    if "render" in program:
+        yield {k: v for k, v in program.items() if k != "render"}
     for fs in drop_in(program["fields"]):
         yield dict(program, fields=fs)
